@@ -852,7 +852,7 @@ func (ctx *EvalCtx) call(e *CExpr) TV {
 		keys := map[string]bool{}
 		(&Frame{vc: vc}).typeCells(g.Go, keys)
 		var ks []string
-		for k := range keys {
+		for _, k := range sortedKeys(keys) {
 			ks = append(ks, k)
 		}
 		sort.Strings(ks)
@@ -879,7 +879,7 @@ func (ctx *EvalCtx) call(e *CExpr) TV {
 		keys := map[string]bool{}
 		(&Frame{vc: vc}).typeCells(g.Go, keys)
 		var ks []string
-		for k := range keys {
+		for _, k := range sortedKeys(keys) {
 			ks = append(ks, k)
 		}
 		sort.Strings(ks)
@@ -986,26 +986,13 @@ func (ctx *EvalCtx) call(e *CExpr) TV {
 		if len(m.Params) != len(e.Args) {
 			ctx.fail("macro %s expects %d arguments", name, len(m.Params))
 		}
-		// call-by-value on evaluated arguments via temporary bound names
-		saved := map[string]TV{}
-		had := map[string]bool{}
-		vals := make([]TV, len(e.Args))
-		for i := range e.Args {
-			vals[i] = ctx.eval(e.Args[i])
-		}
+		// call-by-name: the argument expressions are substituted into the body (so that old(x) of a
+		// macro parameter refers to the argument expression in the old state)
+		m2 := map[string]*CExpr{}
 		for i, p := range m.Params {
-			if old, ok := ctx.bound[p]; ok {
-				saved[p], had[p] = old, true
-			}
-			ctx.bound[p] = vals[i]
+			m2[p] = e.Args[i]
 		}
-		r := ctx.eval(m.Body)
-		for _, p := range m.Params {
-			delete(ctx.bound, p)
-			if had[p] {
-				ctx.bound[p] = saved[p]
-			}
-		}
+		r := ctx.eval(m.Body.subst(m2))
 		return r
 	}
 	if sf := ctx.specFun(name); sf != nil {
